@@ -351,8 +351,9 @@ def execute(spec, ctx):
         second = findcheck.call_find(ctx, res1, search, atol, hints, with_quats=False)
         # an occurrence may legitimately re-appear only with the help of inserted atoms ("unless the replacement itself contains
         # it"): any remaining occurrence made solely of atoms that were there before is a violation
-        orig = set(tuple(float(x) for x in p) for p in np.array(structure.positions, float).reshape(-1, 3))
-        rp = [tuple(float(x) for x in p) for p in np.array(res1.positions, float).reshape(-1, 3)]
+        # (an atom is "there before" if the same element sat at exactly that place: a substituted atom takes the place, not the identity)
+        orig = set((str(e),) + tuple(float(x) for x in p) for e, p in zip(structure.elements, np.array(structure.positions, float).reshape(-1, 3)))
+        rp = [(str(e),) + tuple(float(x) for x in p) for e, p in zip(res1.elements, np.array(res1.positions, float).reshape(-1, 3))]
         for tup in second:
             if all(rp[int(i)] in orig for i in tup):
                 raise Violation("c08:occurrences-remain-after-replacing-all", "an occurrence of the original pattern on original atoms %s is still found after replacing all %d by a pattern without %s"
